@@ -37,14 +37,15 @@ const paramKVFinding = "F40" // fixed in /repo; the exclusion is active only whi
 const unstableChars = "İȺ\u212a"
 
 type MaskCase struct {
-	Pack    string   `json:"pack"`             // TxSql | TxSqlParam | TxDbc
-	Ver     int32    `json:"ver"`              // protocol version
-	Via     string   `json:"via"`              // "process": Process() on a filled pack; "topack": encode, then ToPack (Read + Process)
-	Style   string   `json:"style"`            // space | semi | mixed (which separators occur; informational)
-	Tokens  []Tok    `json:"tokens"`           // the connection string
-	Markers []string `json:"markers"`          // the secret values that must disappear
-	Pad     int      `json:"pad,omitempty"`    // bytes of filler in one extra "options=xxxx" token (long connection strings)
-	PadAt   int      `json:"pad_at,omitempty"` // token index before which the filler token is inserted
+	Pack    string   `json:"pack"`              // TxSql | TxSqlParam | TxDbc
+	Ver     int32    `json:"ver"`               // protocol version
+	Via     string   `json:"via"`               // "process": Process() on a filled pack; "topack": encode, then ToPack (Read + Process)
+	Style   string   `json:"style"`             // space | semi | mixed (which separators occur; informational)
+	Tokens  []Tok    `json:"tokens"`            // the connection string
+	Markers []string `json:"markers"`           // the secret values that must disappear
+	Pad     int      `json:"pad,omitempty"`     // bytes of filler in one extra "options=xxxx" token (long connection strings)
+	PadAt   int      `json:"pad_at,omitempty"`  // token index before which the filler token is inserted
+	SqlLen  int      `json:"sql_len,omitempty"` // length of the SQL text carried next to the connection string (0: a short statement)
 }
 
 func (c MaskCase) dbc() string {
@@ -212,6 +213,9 @@ func drawMask(t *rapid.T) MaskCase {
 		c.Pad = rapid.SampledFrom([]int{3900, 4000, 4050, 4090, 4096, 4200, 8192, 32700, 32768, 60000}).Draw(t, "pad")
 		c.PadAt = rapid.IntRange(0, 8).Draw(t, "padat")
 	}
+	if rapid.IntRange(0, 3).Draw(t, "longsql") == 0 {
+		c.SqlLen = rapid.SampledFrom([]int{100, 4096, 32767, 32768, 40000, 65535}).Draw(t, "sqllen")
+	}
 	return c
 }
 
@@ -249,7 +253,11 @@ func runMask(c MaskCase) *pbt.Result {
 	fieldVal(p, fDbc).SetString(dbc)
 	for _, f := range flds { // some ordinary content around it
 		if f.name == "Sql" {
-			fieldVal(p, f).SetString("select 1 from dual where a=?")
+			sql := "select 1 from dual where a=?"
+			if c.SqlLen > len(sql) {
+				sql += " /* " + strings.Repeat("x", c.SqlLen-len(sql)-7) + " */"
+			}
+			fieldVal(p, f).SetString(sql)
 		}
 	}
 	fam := family(c.Ver)
@@ -327,7 +335,7 @@ func sepClass(s string) string {
 
 var maskSpec = pbt.Register(pbt.Spec[MaskCase]{
 	Prop: "C07", Name: "masking",
-	Rule:  "connection strings of 1..8 tokens (key=value, bare words, empty tokens, repeated keys, near-miss keys) separated by runs of spaces and/or semicolons, values containing '=', '#' and (in the pure styles) the other separator, 1..2 tokens with key `password` whose value contains a unique marker; pack Sql/SqlParam/Dbc x version of every family x Process() directly or through ToPack; Go/PHP: no string field contains a marker afterwards, other families: Dbc unchanged; non-trivial = Go or PHP version; distinct by (pack, version, path, connection string)",
+	Rule:  "connection strings of 1..8 tokens (key=value, bare words, empty tokens, repeated keys, near-miss keys) separated by runs of spaces and/or semicolons, values containing '=', '#' and (in the pure styles) the other separator, 1..2 tokens with key `password` whose value contains a unique marker; pack Sql/SqlParam/Dbc (SQL text short, or in one case of four 100 .. 65535 bytes) x version of every family x Process() directly or through ToPack; Go/PHP: no string field contains a marker afterwards, other families: Dbc unchanged; non-trivial = Go or PHP version; distinct by (pack, version, path, connection string)",
 	Quick: 8000, Thorough: 100000,
 	Draw: drawMask, Run: runMask,
 })
